@@ -174,6 +174,10 @@ func Corpus() []*Scenario {
 		Script: []Fault{{Kind: Retriable, Err: 6, Only: -1}, {Kind: Retriable, Err: 6, Only: -1}, {Kind: Retriable, Err: 7, Only: -1}},
 		Holds: []HoldSpec{{Kind: "bp.recv", Nth: 1, Fin: true, Until: "pp.newHWM", UntilNth: 2},
 			{Kind: "bp.recv", Nth: 2, Fin: true, Until: "pp.recv", UntilNth: 1, UntilFin: true}}})
+	// the leader lookup fails exactly when a retry level is flushed with a parked message; later the leader is back
+	// and the partition goes through a second retry episode (seeded mutation C01-1: buffer failed but not cleared)
+	out = append(out, FlushFail("corpus/leader-unavailable-at-flush", 1, 1, 3, 1, 6, 0))
+	out = append(out, FlushFail("corpus/leader-unavailable-at-flush-2", 2, 2, 2, 2, 7, 1))
 	// connection drop, leader move, metadata failure
 	out = append(out, &Scenario{Name: "corpus/drop-and-move", Brokers: 2, Partitions: 2, Topics: []string{"t0"}, RetryMax: 2, V2: true, FlushMsgs: 2,
 		Msgs:   []MsgSpec{two(1), {ID: 2, Topic: "t0", Choice: 1}, two(3), {ID: 4, Topic: "t0", Choice: 1}, two(5)},
@@ -203,4 +207,29 @@ func Corpus() []*Scenario {
 // Name helper for generated scenarios.
 func GenName(class string, seed int64, i int) string {
 	return fmt.Sprintf("%s/seed%d/%d", class, seed, i)
+}
+
+// FlushFail builds the steered history "retry level 1, messages parked behind the chaser, leader lookup fails at the
+// flush, leader back, second retry episode" on partition 0 of t0 (non-idempotent; the idempotent producer re-sends
+// through retryBatch and never raises the partition worker's level here).
+func FlushFail(name string, brokers, partitions, retryMax, parked int, errCode int16, chanBuf int) *Scenario {
+	sc := &Scenario{Name: name, Brokers: brokers, Partitions: partitions, Topics: []string{"t0"}, RetryMax: retryMax, V2: true, ChanBuf: chanBuf}
+	id := int64(1)
+	sc.Msgs = append(sc.Msgs, MsgSpec{ID: id, Topic: "t0", Choice: 0}) // m1: bounced, then fails on the leader lookup
+	for i := 0; i < parked; i++ {                                      // parked at level 0 while the fin travels
+		id++
+		sc.Msgs = append(sc.Msgs, MsgSpec{ID: id, Topic: "t0", Choice: 0, Wave: 1})
+	}
+	id++
+	sc.Msgs = append(sc.Msgs, MsgSpec{ID: id, Topic: "t0", Choice: 0, Wave: 2}) // second retry episode
+	if partitions > 1 {
+		id++
+		sc.Msgs = append(sc.Msgs, MsgSpec{ID: id, Topic: "t0", Choice: 1, Wave: 2})
+	}
+	sc.Script = []Fault{{Kind: Retriable, Err: errCode, Only: -1, MetaDown: true}, {Kind: Retriable, Err: errCode, Only: -1}}
+	// the fin of level 1 is held in the old broker worker until the parked messages reached the partition worker
+	sc.Holds = []HoldSpec{{Kind: "bp.recv", Nth: 1, Fin: true, Until: "pp.recv", UntilNth: 2 + parked}}
+	sc.WaveWaits = []int{0, 0, 1 + parked}
+	sc.MetaUpAtWave = 2
+	return sc
 }
